@@ -112,11 +112,61 @@ def classify_site(call: ast.Call, fn: ast.FunctionDef) -> tuple[bool, str]:
     # P7: a fixed delimiter emitted at the current position, which the code before has moved to end - len(delimiter)
     if s in ("endprog.quote",) or (isinstance(s_expr, ast.Constant) and isinstance(s_expr.value, str) and len(s_expr.value) == 1):
         width = "len(endprog.quote)" if s == "endprog.quote" else "1"
-        me = [norm_stmt(v) for v in defs.get("middle_end", [])]
+        me = []
+        for v in defs.get("middle_end", []):
+            me.append(norm_stmt(v))
+            # `end - (A if flag else B)`: the arm that holds on the branch this token is emitted on
+            if isinstance(v, ast.BinOp) and isinstance(v.op, ast.Sub) and isinstance(v.right, ast.IfExp) and isinstance(v.right.test, ast.Name):
+                flag = v.right.test.id
+                fdefs = defs.get(flag, [])
+                for g in ast.walk(fn):
+                    if isinstance(g, ast.If) and isinstance(g.test, (ast.Name, ast.Compare)) and \
+                            (norm_stmt(g.test) == flag or (len(fdefs) == 1 and norm_stmt(g.test) == norm_stmt(fdefs[0]))):
+                        if any(call is x for b in g.body for x in ast.walk(b)):
+                            me.append(f"{norm_stmt(v.left)} - {norm_stmt(v.right.body)}")
+                        elif any(call is x for b in g.orelse for x in ast.walk(b)):
+                            me.append(f"{norm_stmt(v.left)} - {norm_stmt(v.right.orelse)}")
         if same_line and sc == "state.pos" and ec == "end" and f"end - {width}" in me:
             return True, "delimiter at the position the preceding middle token ended"
         return False, f"delimiter of width {width} but the span is {sc}..{ec} and middle_end is {me}"
     return False, f"text `{s}` is not visibly the slice {sc}..{ec} of its line"
+
+
+def _classify_through_callers(ix: Index, f, call: ast.Call, why0: str) -> tuple[bool, str]:
+    """A TokenInfo built by a small helper from its parameters: substitute the arguments of every call of the helper and classify
+    the construction in the caller's context."""
+    import copy
+    params = [a.arg for a in f.node.args.args]
+    used = {x.id for x in ast.walk(call) if isinstance(x, ast.Name)} & set(params) - {"state", "self"}
+    if not used or f.cls is not None:
+        return False, why0
+    sites = []
+    for q, g in ix.funcs.items():
+        if g.rel != f.rel or g.node is f.node:
+            continue
+        for c in own_nodes(g.node):
+            if isinstance(c, ast.Call) and isinstance(c.func, ast.Name) and c.func.id == f.node.name and not c.keywords and len(c.args) == len(params):
+                sites.append((g, c))
+    if not sites:
+        return False, why0
+    for g, c in sites:
+        sub = dict(zip(params, c.args))
+
+        class R(ast.NodeTransformer):
+            def visit_Name(self, node):
+                if node.id in sub and isinstance(node.ctx, ast.Load) and node.id != "state":
+                    return copy.deepcopy(sub[node.id])
+                return node
+        new = R().visit(copy.deepcopy(call))
+        ast.fix_missing_locations(new)
+        for x in ast.walk(new):
+            if not hasattr(x, "lineno"):
+                continue
+            x.lineno = c.lineno
+        ok, why = classify_site(new, g.node)
+        if not ok:
+            return False, f"(through {g.qual}) {why}"
+    return True, f"helper classified at {len(sites)} call site(s)"
 
 
 def rule_l1(chk: Check, ix: Index):
@@ -131,6 +181,8 @@ def rule_l1(chk: Check, ix: Index):
             counts[kind] = i + 1
             chk.count("L1-text-is-span")
             ok, why = classify_site(n, f.node)
+            if not ok:
+                ok, why = _classify_through_callers(ix, f, n, why)
             chk.require(ok, "L1-text-is-span", f"{q}:{kind}" + (f"@{i}" if i else ""), f"{f.rel}:{n.lineno}",
                         f"token text and coordinates disagree: {why}")
     # the invariant the spans lean on: `max` is the length of the current line, re-established whenever the line changes
@@ -193,20 +245,42 @@ def rule_l2(chk: Check, ix: Index):
     # (decided on path sets with the line-covering helper inlined, so helper-vs-inline and if/else shapes do not matter)
     from ..pyflow import stmt_paths
 
-    def paths_of(q: str):
+    def paths_of(q: str, depth: int = 0):
         f = ix.get(q)
         out = set()
         for pth in stmt_paths(f.node.body):
             variants = [()]
             for x in pth:
-                m = _re.fullmatch(r"self\.(\w+)\(state\)", x[1]) if x[0] == "do" else None
+                m = _re.fullmatch(r"self\.(\w+)\((.*)\)", x[1]) if x[0] == "do" else None
                 callee = ix.funcs.get(f"EndProg.{m.group(1)}") if m else None
-                if callee is not None:
-                    subs = [sp[:-1] for sp in stmt_paths(callee.node.body) if sp[-1][1] in ("end", "return")]
+                if callee is not None and callee.node is not f.node and depth < 2:
+                    # inline the helper: its parameters stand for the argument texts
+                    params = [a.arg for a in callee.node.args.args if a.arg != "self"]
+                    call = ast.parse(x[1], mode="eval").body
+                    args = [norm_stmt(a) for a in call.args]
+                    if len(args) != len(params) or call.keywords:
+                        variants = [v + (x,) for v in variants]
+                        continue
+                    _f2, sub_paths = paths_of(f"EndProg.{m.group(1)}", depth + 1)
+                    subs = []
+                    for sp in sub_paths:
+                        if sp and sp[-1][0] == "exit" and sp[-1][1] not in ("end", "return"):
+                            continue
+                        body = sp[:-1] if sp and sp[-1][0] == "exit" else sp
+                        ren = []
+                        for y in body:
+                            t = y[1]
+                            for pn, av in zip(params, args):
+                                if pn != av:
+                                    t = _re.sub(rf"\b{pn}\b", av, t)
+                            ren.append((y[0], t, *y[2:]))
+                        subs.append(tuple(ren))
                     variants = [v + sub for v in variants for sub in subs]
                 else:
                     variants = [v + (x,) for v in variants]
             out |= set(variants)
+        # one spelling for "to the end of the line"
+        out = {tuple((y[0], y[1].replace("state.line[state.pos:len(state.line)]", "state.line[state.pos:]"), *y[2:]) for y in pth) for pth in out}
         return f, out
 
     COVER_TESTS = {"state.lnum > self.upto": True, "self.upto < state.lnum": True, "state.lnum != self.upto": True,
@@ -272,15 +346,30 @@ def rule_l2(chk: Check, ix: Index):
     # buffered text of earlier lines must be flushed before the mode changes: every guard in front of the FSTRING_MIDDLE emission
     # has to be true whenever the buffer is non-empty
     hf = ix.get("handle_fstring_progs")
-    for n in own_nodes(hf.node):
-        if isinstance(n, ast.If) and any(isinstance(c, ast.Call) and norm_stmt(c.func) == "state.prog_token"
-                                         for s2 in n.body if not isinstance(s2, (ast.If, ast.For, ast.While)) for c in ast.walk(s2)):
-            chk.count("L2-accumulation")
-            t = n.test
-            parts = [norm_stmt(v).strip("()") for v in (t.values if isinstance(t, ast.BoolOp) and isinstance(t.op, ast.Or) else [t])]
-            chk.require("endprog.text" in parts, "L2-accumulation", f"handle_fstring_progs:flush@{norm_stmt(t)[:40]}", f"{hf.rel}:{n.lineno}",
-                        f"the middle part is emitted only under `{norm_stmt(t)}`; text buffered from earlier lines of the f-string "
-                        f"(`endprog.text`) is dropped when the delimiter is the first character of a line")
+    from ..fprogs import delimiter_paths
+    for kind, ps in delimiter_paths(ix).items():
+        chk.count("L2-accumulation")
+        bad = None
+        for p in ps:
+            if any(x[0] == "do" and "state.prog_token(" in x[1] for x in p):
+                continue
+            # the middle part is not emitted on this path: some failed test must imply that nothing is buffered
+            implied = False
+            for x in p:
+                if x[0] != "cond":
+                    continue
+                t = ast.parse(x[1], mode="eval").body
+                if x[2] is False:
+                    parts = [norm_stmt(v).strip("()") for v in (t.values if isinstance(t, ast.BoolOp) and isinstance(t.op, ast.Or) else [t])]
+                    implied = implied or "endprog.text" in parts
+                else:
+                    parts = [norm_stmt(v).strip("()") for v in (t.values if isinstance(t, ast.BoolOp) and isinstance(t.op, ast.And) else [t])]
+                    implied = implied or "not endprog.text" in parts
+            if not implied:
+                bad = [x[1] for x in p if x[0] == "cond"]
+        chk.require(bad is None, "L2-accumulation", f"handle_fstring_progs:flush@{kind}", hf.where,
+                    f"on a path ending at the delimiter {kind} the middle part is skipped under {bad}; text buffered from earlier lines of the "
+                    f"f-string (`endprog.text`) is dropped when the delimiter is the first character of a line")
     # in brace mode the rest of the line belongs to the expression: the line-joining tail of handle_end_progs must not run
     he = ix.get("handle_end_progs")
     from ..pyflow import CFG
@@ -445,6 +534,38 @@ def rule_l4(chk: Check, ix: Index):
     chk.require(not bad, "L4-block-structure", "next_end_tokens:implicit-newline", ne.where,
                 f"the implicit NEWLINE must be added exactly when the input's last line lacks a line end and was not a blank/comment-only "
                 f"line (decided by the scanner's state: a line starting with '#' inside a string is text); differs on {bad[:3]}")
+    # the record the condition consults is kept by the scanner: set to the line number exactly where a blank/comment-only
+    # line is answered with NL, and nowhere else
+    if len(conds) == 1:
+        fields = sorted({x.attr for x in ast.walk(conds[0].test) if isinstance(x, ast.Attribute) and norm_stmt(x.value) == "state"}
+                        - {"last_line", "lnum"})
+        for fld in fields:
+            chk.count("L4-block-structure")
+            why = ""
+            writers = set()
+            for q, g in ix.funcs.items():
+                for x in own_nodes(g.node):
+                    if isinstance(x, ast.Attribute) and isinstance(x.ctx, (ast.Store, ast.Del)) and x.attr == fld:
+                        writers.add(q)
+            extra = writers - {"TokenizerState.__init__", "next_statement"}
+            if extra:
+                why = f"also written in {sorted(extra)}"
+            elif "next_statement" not in writers:
+                why = "never recorded while scanning"
+            else:
+                try:
+                    for pth in stmt_paths(tail, opaque_loops=True):
+                        does = [x[1] for x in pth if x[0] == "do"]
+                        nl = any("yield" in d and "Token.NL" in d for d in does)
+                        rec = [d for d in does if d.startswith(f"state.{fld} ")]
+                        if nl and rec != [f"state.{fld} = state.lnum"]:
+                            why = f"a blank/comment-only line is answered with NL without `state.{fld} = state.lnum` ({rec})"
+                        elif not nl and rec:
+                            why = f"recorded on a path that does not emit the blank-line NL: {rec}"
+                except AnalysisError as e:
+                    why = f"not analysable: {e}"
+            chk.require(not why, "L4-block-structure", f"next_statement:records-{fld}", ns.where,
+                        f"`state.{fld}` (consulted for the implicit NEWLINE) must hold the number of the last blank/comment-only line: {why}")
     tk = ix.get("_tokenize")
     chk.count("L4-block-structure")
     last = tk.node.body[-1]
@@ -482,6 +603,6 @@ def run(chk: Check):
     from .c07 import rule_m1
     rule_k1(chk, constfold.fold_tokenize(), chk.tier == "thorough")
     rule_m1(chk, ix)
-    chk.floor("L2-accumulation", 10)
+    chk.floor("L2-accumulation", 11)
     chk.floor("L3-coverage", 15)
     chk.floor("L4-block-structure", 4)
